@@ -2,6 +2,8 @@
     [Layout.accounted] is the decision procedure the harness evaluates on the independent decoder's view of every
     file image; this file proves that a "yes" of that procedure is the declarative partition. *)
 From Bbolt Require Import Base Consts Spec Fnv Layout LayoutProofs LayoutOrderProofs Pager PagerProofs.
+From Bbolt Require Node Tree TreeProofs.
+From Coq Require Import Permutation.
 
 Theorem C07_accounting_decision_sound : forall v free,
   accounted v free = true ->
@@ -36,3 +38,31 @@ Theorem C07_decoder_order_means_sorted : forall rd ps fuel m v,
   keys_sorted (snd (v_root v)) = true /\ all_sorted fuel (snd (v_root v)) = true.
 Proof. exact dec_with_meta_sorted. Qed.
 Print Assumptions C07_decoder_order_means_sorted.
+
+(** ---- the tree layer discharges Pager's guard tree_ok (Tree.v predicts every real Free/Allocate of generated commits exactly) ---- *)
+Module TreeLayer.
+Import Node Tree TreeProofs.
+
+(** for every visit order: the page runs of the old tree are exactly the runs the commit frees plus the runs the new tree keeps (as multisets):
+    nothing leaks, nothing freed is kept *)
+Theorem C07_commit_frees_exactly_what_it_drops : forall ps fill fuel t order t' evs,
+  aligned t -> commit_tree ps fill fuel t order = Ok (t', evs) -> Permutation (runs t) (freed evs ++ runs t').
+Proof. exact commit_tree_runs. Qed.
+Print Assumptions C07_commit_frees_exactly_what_it_drops.
+
+(** only pages of the tree are freed, none twice; the pages the new tree keeps are the old ones minus the freed ones *)
+Theorem C07_commit_no_double_free_no_foreign_free : forall ps fill fuel t order t' evs,
+  aligned t -> NoDup (ids t) -> commit_tree ps fill fuel t order = Ok (t', evs) ->
+  (forall p ov, In (EvFree p ov) evs -> In (p, ov) (runs t)) /\
+  NoDup (map fst (freed evs)) /\
+  NoDup (ids t') /\
+  (forall x, In x (ids t') <-> In x (ids t) /\ ~ In x (map fst (freed evs))).
+Proof. exact commit_tree_frees. Qed.
+Print Assumptions C07_commit_no_double_free_no_foreign_free.
+
+(** every new page is allocated exactly once, with exactly the run length it occupies *)
+Theorem C07_commit_allocates_each_new_page_once : forall ps fill fuel t order t' evs,
+  0 < ps -> aligned t -> closed true t -> commit_tree ps fill fuel t order = Ok (t', evs) -> Permutation (allocs evs) (zeros t').
+Proof. exact commit_tree_allocs. Qed.
+Print Assumptions C07_commit_allocates_each_new_page_once.
+End TreeLayer.
